@@ -135,7 +135,7 @@ def write_replay(pid, seed, payload):
     payload["seed"] = seed
     payload["rerun"] = f"./check --replay {os.path.relpath(path, VERIF)}"
     with open(path, "w", encoding="utf-8") as f:
-        json.dump(payload, f, ensure_ascii=False, indent=1, default=repr)
+        json.dump(payload, f, ensure_ascii=True, indent=1, default=repr)
     return os.path.relpath(path, VERIF)
 
 
@@ -256,7 +256,7 @@ def run_check(pid, tier, seed, repo):
     }
     os.makedirs(os.path.join(VERIF, "evidence"), exist_ok=True)
     with open(os.path.join(VERIF, "evidence", f"{pid}.json"), "w", encoding="utf-8") as f:
-        json.dump(ev, f, ensure_ascii=False, indent=1, default=repr)
+        json.dump(ev, f, ensure_ascii=True, indent=1, default=repr)
     print(f"{pid} {tier} seed={seed}: obligations {discharged}/{len(ob['theorems'])}, correspondence "
           f"{len(batch.requests)} requests / {len(disagreements)} disagreements, falsifier {ctx.evaluations} cases / "
           f"{len(hits)} hits ({len(known_seen)} known), {wall:.1f}s -> exit {rc}")
